@@ -10,6 +10,7 @@
 From mathcomp Require Import all_ssreflect all_algebra.
 From SsrMultinomials Require Import mpoly.
 From NP Require Import Base Poly Deriv Rearr Reduce Abs Expr OptIrrP GenOptRead BridgeOptRead MulTotal DerivTotal HessTotal.
+From NP Require Import Eval EvalP Persist PersistP.
 Set Implicit Arguments. Unset Strict Implicit. Unset Printing Implicit Defensive.
 Import GRing.Theory.
 Local Open Scope ring_scope.
@@ -59,6 +60,24 @@ Proof. exact: gradient_total. Qed.
 Theorem C15_hessian_never_fails o p (vs : seq 'I_n) :
   wfb p -> names p = [seq nat_of_ord v | v <- vs] -> exists r, hessian o p = Ok r.
 Proof. exact: hessian_total. Qed.
+
+(* (un)pickling never fails, whatever flags __reduce__ passes and whatever the options say, and gives back the same
+   polynomials in the same shape (restated from C13) *)
+Theorem C15_pickle_never_fails o f p :
+  wfb p -> (0 < psize p)%N ->
+  exists q, [/\ pickle_roundtrip o f p = Ok q, wfb q, shape q = shape p & forall i, absE n q i = absE n p i].
+Proof. exact: reduce_rebuild. Qed.
+
+(* evaluating at numbers: the model takes no option record at all (no option is read on that path - the read-sets below),
+   and it succeeds for every well-formed array and all arguments whose shapes broadcast, with the value of every element
+   at every point (restated from C02) *)
+Theorem C15_numeric_call_never_fails p bound s :
+  wfb p -> all (fun v => v < n)%N (names p) -> size bound = size (names p) ->
+  bshapes [seq arg_shape a | a <- bound] = Some s ->
+  exists2 vals, call_numeric p bound = Ok (shape p ++ s, vals) &
+    forall i j, (i < psize p)%N -> (j < prodn s)%N ->
+      nth 0 vals (i * prodn s + j) = (absE n p i).@[point (names p) bound s j].
+Proof. exact: call_numeric_spec. Qed.
 
 Theorem C15_retain_only_layout rc1 rn1 rc2 rn2 ns sh rs (cs : seq (seq R)) q1 q2 :
   from_attributes rc1 rn1 ns sh rs cs = Ok q1 -> from_attributes rc2 rn2 ns sh rs cs = Ok q2 ->
@@ -120,6 +139,8 @@ Print Assumptions C15_expression_success.
 Print Assumptions C15_derivative_never_fails.
 Print Assumptions C15_gradient_never_fails.
 Print Assumptions C15_hessian_never_fails.
+Print Assumptions C15_pickle_never_fails.
+Print Assumptions C15_numeric_call_never_fails.
 Print Assumptions C15_retain_only_layout.
 Print Assumptions C15_sort_flags_unread.
 Print Assumptions C15_sort_flags_unread_expression.
